@@ -66,6 +66,7 @@ type Frame struct {
 	panics   []retRec
 	retBlocks []int
 	dbg      map[string][]ssa.Value
+	dbgSite  map[string]map[ssa.Value][]ssa.Instruction
 	textOrd  map[string]int
 }
 
@@ -1012,7 +1013,12 @@ func (f *Frame) inferLoopInvariants(li *loopInfo) {
 // collectDebug records source names of SSA values (needs ssa.GlobalDebug).
 func (f *Frame) collectDebug() {
 	f.dbg = map[string][]ssa.Value{}
-	add := func(name string, v ssa.Value) {
+	f.dbgSite = map[string]map[ssa.Value][]ssa.Instruction{}
+	add := func(name string, v ssa.Value, site ssa.Instruction) {
+		if f.dbgSite[name] == nil {
+			f.dbgSite[name] = map[ssa.Value][]ssa.Instruction{}
+		}
+		f.dbgSite[name][v] = append(f.dbgSite[name][v], site)
 		for _, o := range f.dbg[name] {
 			if o == v {
 				return
@@ -1025,25 +1031,57 @@ func (f *Frame) collectDebug() {
 			switch x := ins.(type) {
 			case *ssa.DebugRef:
 				if obj := x.Object(); obj != nil && !x.IsAddr {
-					add(obj.Name(), x.X)
+					add(obj.Name(), x.X, x)
 				} else if obj != nil && x.IsAddr {
-					add("&"+obj.Name(), x.X)
+					add("&"+obj.Name(), x.X, x)
 				}
 			case *ssa.Phi:
 				if x.Comment != "" {
-					add(x.Comment, x)
+					add(x.Comment, x, x)
 					// the index of an enclosing range loop by loop ordinal: rangeindex0, rangeindex1, ...
 					if li, ok := f.loops[b]; ok && li != nil && x.Comment == "rangeindex" {
-						add(fmt.Sprintf("rangeindex%d", li.ordinal), x)
+						add(fmt.Sprintf("rangeindex%d", li.ordinal), x, x)
 					}
 				}
 			case *ssa.Alloc:
 				if x.Comment != "" {
-					add("&"+x.Comment, x)
+					add("&"+x.Comment, x, x)
 				}
 			}
 		}
 	}
+}
+
+// boundAt: the value v carries the source name at the program point (block
+// at, instruction index f.atInstr or block entry) only if one of the places
+// that give it the name (a reference or assignment in the source, or the phi
+// itself) has been passed on every path to that point. A value defined early
+// but assigned to the variable later ("prev = cur" at the end of a loop body)
+// does not name the variable before that assignment. (Used as a preference:
+// the builder records no naming site for the "x := e" that introduces a
+// variable, so lookupLocal falls back to definition dominance when no
+// candidate is bound.)
+func (f *Frame) boundAt(name string, v ssa.Value, at *ssa.BasicBlock) bool {
+	if at == nil {
+		return true
+	}
+	sites := f.dbgSite[name][v]
+	for _, s := range sites {
+		blk := s.Block()
+		if blk == at {
+			if _, isPhi := s.(*ssa.Phi); isPhi {
+				return true
+			}
+			if f.atInstr >= 0 && instrIndex(s) < f.atInstr {
+				return true
+			}
+			continue
+		}
+		if blk.Dominates(at) {
+			return true
+		}
+	}
+	return false
 }
 
 // lookupLocal resolves a source-level variable name at the start of block at.
@@ -1072,8 +1110,26 @@ func (f *Frame) lookupLocal(name string, at *ssa.BasicBlock, st *State) (Val, bo
 		return false
 	}
 	var best ssa.Value
+	// Prefer values that carry the name at this point (boundAt); only if there
+	// is none fall back to any value of that name whose definition dominates
+	// (the builder records no naming site for "x := e" itself).
+	anyBound := false
 	for _, v := range f.dbg[name] {
 		if !dominates(v) {
+			continue
+		}
+		if _, have := f.vals[v]; !have {
+			continue
+		}
+		if _, isInstr := v.(ssa.Instruction); !isInstr || f.boundAt(name, v, at) {
+			anyBound = true
+		}
+	}
+	for _, v := range f.dbg[name] {
+		if !dominates(v) {
+			continue
+		}
+		if _, isInstr := v.(ssa.Instruction); isInstr && anyBound && !f.boundAt(name, v, at) {
 			continue
 		}
 		if _, have := f.vals[v]; !have {
